@@ -280,6 +280,19 @@ def run_config_symbolic(pid, cfg, tier, seed):
             rec.setdefault('witness', []).append(wit_status)
             if wit_status == 'infeasible-path':
                 continue
+            if cfg.get('_fidelity') and path is None and wit is not None and cfg.get('domain') != 'fp':
+                # translator validation: the traced terms evaluated numerically at a sampled point; the parent compares them with the
+                # values the same harness produces on the real numpy / real flowdyn at that point
+                obs_f = [o for o in case.obs if o.kind in ('eq', 'le', 'lt') and o.replayable and
+                         not any(t.op == 'uf' for t in tm.topo([L(o.lhs), L(o.rhs)]))][:60]
+                roots = [L(o.lhs) for o in obs_f] + [L(o.rhs) for o in obs_f]
+                order = tm.topo(roots)
+                if obs_f and not side:
+                    names_ = [t.v for t in order if t.op == 'var']
+                    envf = {k: wit.get(k, 0.5) for k in set(names_) | set(wit)}
+                    val = tm.evalf(order, envf)
+                    rec['fidelity'] = {'env': {k: repr(float(v)) for k, v in envf.items()},
+                                       'values': [[o.name, val[L(o.lhs).id], val[L(o.rhs).id]] for o in obs_f]}
             # joint SMT sweeping of all obligations that ask for it (lemmas are shared between them)
             sw = [o for o in case.obs if o.method in ('sweep', 'split') and o.goal() is not tm.TRUE]
             swept = {}
@@ -546,6 +559,15 @@ def replay_case(case):
             except Exception as e:
                 return {'status': 'exception', 'detail': '%s: %s' % (type(e).__name__, e),
                         'trace': traceback.format_exc()[-1200:]}
+    if case.get('mode') == 'values':
+        vals = []
+        for o in B.case.obs:
+            if o.kind in ('eq', 'le', 'lt'):
+                try:
+                    vals.append([o.name, _f(o.lhs), _f(o.rhs)])
+                except Exception:
+                    pass
+        return {'status': 'values', 'values': vals}
     if not all(B.case.assume):
         return {'status': 'assumption-false', 'detail': 'model violates a harness assumption after float conversion'}
     want = case.get('obligation')
@@ -725,9 +747,56 @@ def main(argv=None):
     cfgs = mod.configs(a.tier)
     if a.only:
         cfgs = [c for c in cfgs if all(s in cfg_key(c) for s in a.only.split(';'))]
+    nfid = 0
+    for c_ in cfgs:
+        if nfid < int(os.environ.get('VT_FIDELITY', '3')) and not (c_.get('explore') or getattr(mod, 'EXPLORE', False)) and c_.get('domain') != 'fp':
+            c_['_fidelity'] = True
+            nfid += 1
     recs = run_pool(a.pid, cfgs, a.tier, seed, a.jobs, verbose=a.v)
+    fidelity_compare(a.pid, recs)
     recs.sort(key=lambda r: cfg_key(r['cfg']))
     return report(mod, a.pid, a.tier, seed, recs, time.time() - t0, verbose=a.v)
+
+
+def fidelity_compare(pid, recs):
+    """translator validation: symbolic-run values vs real-build values at the same sampled point"""
+    for r in recs:
+        fid = r.get('fidelity')
+        r['cfg'].pop('_fidelity', None)
+        if not fid:
+            continue
+        case = {'property': pid, 'cfg': r['cfg'], 'env': fid['env'], 'mode': 'values'}
+        d = os.path.join(OUT, 'replays')
+        os.makedirs(d, exist_ok=True)
+        pth = os.path.join(d, '%s-fidelity-%s.json' % (pid, hashlib.sha256(cfg_key(r['cfg']).encode()).hexdigest()[:10]))
+        json.dump(case, open(pth, 'w'))
+        try:
+            out = subprocess.run([REPLAY_PY, os.path.join(VERIF, 'vt', 'replay_main.py'), pth], capture_output=True, text=True, timeout=600,
+                                 env=dict(os.environ, PYTHONPATH=VERIF))
+            last = [ln for ln in out.stdout.splitlines() if ln.startswith('REPLAY ')]
+            real = {v[0]: v for v in json.loads(last[-1][7:]).get('values', [])} if last else {}
+        except Exception as e:      # noqa
+            real = {}
+        n = 0
+        worst = 0.0
+        bad = []
+        for name, a_, b_ in fid['values']:
+            if name not in real:
+                continue
+            for x, y in ((a_, real[name][1]), (b_, real[name][2])):
+                if not all(isinstance(z, (int, float)) for z in (x, y)) or any(z != z or abs(z) == float('inf') for z in (x, y)):
+                    continue
+                n += 1
+                rel = abs(x - y) / max(1.0, abs(x), abs(y))
+                worst = max(worst, rel)
+                if rel > 1e-6:
+                    bad.append([name, x, y])
+        r['fidelity_result'] = {'values_compared': n, 'max_rel_diff': worst, 'mismatches': bad[:5], 'real_values_found': len(real)}
+        r.pop('fidelity', None)
+        try:
+            os.unlink(pth)
+        except OSError:
+            pass
 
 
 def report(mod, pid, tier, seed, recs, wall, verbose=False):
@@ -745,7 +814,15 @@ def report(mod, pid, tier, seed, recs, wall, verbose=False):
     notes = []
     vac = 0
     xstats = {}
+    fid = {'configs': 0, 'values_compared': 0, 'max_rel_diff': 0.0}
     for r in recs:
+        fr = r.get('fidelity_result')
+        if fr:
+            fid['configs'] += 1
+            fid['values_compared'] += fr['values_compared']
+            fid['max_rel_diff'] = max(fid['max_rel_diff'], fr['max_rel_diff'])
+            if fr['mismatches']:
+                harness_errors.append({'cfg': r['cfg'], 'error': 'translator validation mismatch (numpy model vs real numpy)', 'detail': fr['mismatches']})
         if r['error']:
             harness_errors.append({'cfg': r['cfg'], 'error': r['error']})
         for k in stats:
@@ -835,6 +912,7 @@ def report(mod, pid, tier, seed, recs, wall, verbose=False):
             'known_findings_matched': {k: len(v) for k, v in known_hits.items()},
             'queries': {k: stats[k] for k in ('queries', 'unsat', 'sat', 'unknown')},
             'cross_check_z3_4_8_12': xstats,
+            'translator_validation': dict(fid, what='values of the traced terms (numpy model) vs values computed by the same harness on the real numpy and the real flowdyn build, at a sampled admissible point; relative tolerance 1e-6'),
             'solver_seconds': round(stats['solver_s'], 2),
             'evaluations': max(nob, 1),
             'distinct_nontrivial': len(nontrivial),
